@@ -7,9 +7,9 @@ package keeper
 import (
 	"bytes"
 
-	fiattokenfactorytypes "github.com/circlefin/noble-fiattokenfactory/x/fiattokenfactory/types"
 	"github.com/circlefin/noble-cctp/x/cctp/types"
 	"github.com/circlefin/noble-cctp/x/cctp/verifrt"
+	fiattokenfactorytypes "github.com/circlefin/noble-fiattokenfactory/x/fiattokenfactory/types"
 )
 
 func receiveCaps() userCaps {
@@ -30,7 +30,7 @@ func receiveLemmaN(p string, eventsMayFail bool, sigs int, before int) {
 	if before >= 0 {
 		a := c18exec(before, "other_", "other_")
 		verifrt.Assume(a.ok)
-		verifrt.Cover("receive/other-instance-ran-first")
+		verifrt.Cover("C18/other-instance-ran-first")
 	}
 	h := newH("")
 	c := receiveCaps()
